@@ -11,6 +11,7 @@ import (
 	"github.com/Eyevinn/mp4ff/mp4"
 	"pgregory.net/rapid"
 
+	"verif/internal/esgen"
 	"verif/internal/harness"
 	"verif/internal/nalgen"
 )
@@ -80,7 +81,7 @@ func avcCheckRec(what string, r *avc.DecConfRec, s *avc.SPS, sps, pps [][]byte, 
 
 // avcCheckRecChroma: chroma format and bit depths (the record fields named ...Minus1 hold bit_depth_*_minus8).
 func avcCheckRecChroma(what string, r *avc.DecConfRec, s *avc.SPS) *harness.Fail {
-	cf := avcChromaFormatIDC(s)
+	cf := esgen.AVCChromaFormatIDC(s)
 	if r.ChromaFormat != cf {
 		return harness.Failf("C15|avc.DecConfRec.ChromaFormat|differs from SPS", "%s: chroma_format %d, SPS chroma_format_idc %d (profile %d)", what, r.ChromaFormat, cf, s.Profile)
 	}
@@ -131,7 +132,7 @@ func checkAVCConf(c avcConfCase) *harness.Fail {
 		recS, recP = spsN, ppsN
 	}
 	ref := avcRefDecConfRec(byte(s.Profile), byte(s.ProfileCompatibility), byte(s.Level), recS, recP, extSure,
-		avcChromaFormatIDC(s), byte(s.BitDepthLumaMinus8), byte(s.BitDepthChromaMinus8))
+		esgen.AVCChromaFormatIDC(s), byte(s.BitDepthLumaMinus8), byte(s.BitDepthChromaMinus8))
 	enc := buf.Bytes()
 	cmp := enc
 	if !extSure && len(cmp) > len(ref) {
@@ -190,7 +191,7 @@ func checkAVCConf(c avcConfCase) *harness.Fail {
 			int(box[0])<<24|int(box[1])<<16|int(box[2])<<8|int(box[3]) == len(box)
 		if ok && len(box) != 8+len(ref) {
 			full := avcRefDecConfRec(byte(s.Profile), byte(s.ProfileCompatibility), byte(s.Level), recS, recP, true,
-				avcChromaFormatIDC(s), byte(s.BitDepthLumaMinus8), byte(s.BitDepthChromaMinus8))
+				esgen.AVCChromaFormatIDC(s), byte(s.BitDepthLumaMinus8), byte(s.BitDepthChromaMinus8))
 			ok = !extSure && extStruct && bytes.Equal(box[8:], full)
 		}
 		if !ok {
@@ -252,25 +253,16 @@ func checkAVCConf(c avcConfCase) *harness.Fail {
 func TestAVCConf(t *testing.T) {
 	harness.RunRapid(t, "conf", func(rt *rapid.T) {
 		var c avcConfCase
-		nSPS := rapid.SampledFrom([]int{1, 1, 1, 2, 3}).Draw(rt, "nSPS")
-		nPPS := rapid.SampledFrom([]int{1, 1, 2, 3, 0}).Draw(rt, "nPPS")
-		spsIDs := avcDistinct(rt, nSPS, 31, "seq_parameter_set_id")
-		ppsIDs := avcDistinct(rt, nPPS, 255, "pic_parameter_set_id")
-		for i := 0; i < nSPS; i++ {
-			c.SPS = append(c.SPS, genAVCSPS(rt, avcSPSOpts{ID: spsIDs[i], Light: i > 0, Conf: i == 0}))
-		}
-		for i := 0; i < nPPS; i++ {
-			ref := rapid.IntRange(0, nSPS-1).Draw(rt, "pps-refers-to")
-			c.PPS = append(c.PPS, genAVCPPS(rt, avcPPSOpts{ID: ppsIDs[i]}, &c.SPS[ref]))
-		}
-		c.IncludePS = avcChance(rt, 3, 4, "includePS")
+		c.SPS, c.PPS = esgen.GenAVCConfSets(rt)
+		nSPS, nPPS := len(c.SPS), len(c.PPS)
+		c.IncludePS = esgen.AVCChance(rt, 3, 4, "includePS")
 		c.SampleEntry = rapid.SampledFrom([]string{"avc1", "avc3"}).Draw(rt, "sample-entry")
 		p0 := c.SPS[0].S.Profile
-		c.EncodeBoxes = !avcAvoid("avc-conf-avcc-size-encode-mismatch", p0 != 66 && p0 != 77 && p0 != 88 && p0 != 100 && p0 != 110 && p0 != 122)
-		cl := avcSPSClasses(&c.SPS[0])
+		c.EncodeBoxes = !esgen.AVCAvoid("avc-conf-avcc-size-encode-mismatch", p0 != 66 && p0 != 77 && p0 != 88 && p0 != 100 && p0 != 110 && p0 != 122)
+		cl := esgen.AVCSPSClasses(&c.SPS[0])
 		cl = append(cl, fmt.Sprintf("avc-conf-%s-ps%v", c.SampleEntry, c.IncludePS), fmt.Sprintf("avc-conf-nsps%d-npps%d", nSPS, nPPS))
 		raw, _ := json.Marshal(c)
-		harness.Rec.Case(avcNontrivial(cl, "avc-sps-profile-", "avc-sps-poc0", "avc-sps-baseline-main-extended", "avc-conf-avc1-pstrue", "avc-conf-nsps1-npps1"), raw, cl...)
+		harness.Rec.Case(esgen.AVCNontrivial(cl, "avc-sps-profile-", "avc-sps-poc0", "avc-sps-baseline-main-extended", "avc-conf-avc1-pstrue", "avc-conf-nsps1-npps1"), raw, cl...)
 		if harness.Rec.WantSample() {
 			harness.Rec.Sample(map[string]interface{}{"kind": "avcconf", "case": c})
 		}
